@@ -153,6 +153,11 @@ pub fn gen(tier: &str, r: &mut Rng) -> Vec<String> {
         lines.push("END".to_string());
         push(&mut out, r, (lines.join("\n") + "\n").into_bytes(), "seqres");
     }
+    // SEQRES documents that walk validate_seqres through all of its branches
+    for _ in 0..budget(tier, 300, 12_000) {
+        let lines = pdbtext::gen_seqres_doc(r);
+        push(&mut out, r, (lines.join("\n") + "\n").into_bytes(), "seqres-branches");
+    }
     // multi-fault mutations of generated documents
     let n = budget(tier, 1500, 60_000);
     for _ in 0..n {
